@@ -220,6 +220,12 @@ def rule_populate(ctx, R):
                         link = dict(val[4]).get("index") if val[0] == "agg" else None
                         want_next = ("bin", "Add", idx, ("const", 1))
                         ok = link is not None and link[0] == "agg" and link[4][0][1][0] == "bin" and link[4][0][1][1] == "BitOr" and untrim(link[4][0][1][2]) == want_next
+            # C10: the `new_usize(idx + 1).unwrap()` in this loop runs inside the grower's commit section; it cannot panic only
+            # because the loop stops at len-2 (idx + 1 <= len - 1 < 2^24) -- the exemption in tables/unwind.json rests on this range
+            if not ok:
+                R.fail("C10-R7", key + "|write(%s)" % (what or "?"), "populate_free_list does not thread exactly start..len-1 (+ end marker at len-1): the successor index idx+1 can reach 2^24 and its unwrap panics in the middle of grow, after the reallocations and before capacity is stored", where_of(fn, e[5]), fn=fn.key)
+            else:
+                R.ok("C10-R7", key + "|write(%s)" % (what or "?"), "the loop range keeps idx+1 below 2^24: the unwrap inside the grower's commit section cannot panic")
             R.check(ok, "C12-R4", key + "|write(%s)" % (what or "?"), "slot %s threaded correctly" % what,
                     "populate_free_list writes slot[%s] <- %s; expected links idx -> idx+1 for idx in start..len-1 and the end marker at len-1" % (show(idx) if idx else "?", show(val)[:200]), where_of(fn, e[5]), fn=fn.key)
             if val[0] == "agg":
@@ -1278,12 +1284,26 @@ def rule_payload_use(ctx, R):
                 R.fail("C02-R7", key + "|paths", "path enumeration failed (fail closed)", where_of(f), fn=f.key)
                 continue
             some = [p for p in ps if p.end == "return" and N(p.ret)[0] == "agg" and N(p.ret)[3] == "Some"]
-            if not some:
-                R.fail("C02-R7", key + "|accepting-path", "no path returning Some(..) found", where_of(f), fn=f.key)
-                continue
+            judged = []   # (result value, components of the resolver's pair it uses)
             for p in some:
-                ret = N(p.ret)
-                used = set()
+                judged.append((N(p.ret), None))
+            if not some:
+                # `self.resolve_x(key).map(|(slot, dense)| ..)`: the closure's parameter is the resolver's pair
+                from .r_storage import closure_applications
+                for (cf, pp, e, cps) in closure_applications(ctx, f):
+                    if not (cname(e[2]).endswith(("Option::map", "Option::and_then")) and contains(N(e[3][0]), lambda t: t[0] == "call" and ("resolve_entity" in t[1] or "::resolve_direct" in t[1]))):
+                        continue
+                    for cp in cps or ():
+                        if cp.end != "return":
+                            continue
+                        cret = N(cp.ret)
+                        usedc = {x[2] for x in subterms(cret) if x[0] == "vfield" and x[1] == ("carg", 2)}
+                        judged.append((cret, usedc))
+            if not judged:
+                R.fail("C02-R7", key + "|accepting-path", "no accepting path (Some(..) / .map(..) of the resolver's result) found", where_of(f), fn=f.key)
+                continue
+            for (ret, used_pre) in judged:
+                used = set(used_pre) if used_pre is not None else set()
                 for x in subterms(ret):
                     # (<resolver result> as Continue|Some).0.<K>  -- component K of the resolver's pair
                     if x[0] == "vfield" and x[1][0] == "vfield" and x[1][2] == "0" and x[1][1][0] == "vdown" and x[1][1][2] in ("Continue", "Some") \
@@ -1292,13 +1312,13 @@ def rule_payload_use(ctx, R):
                 n += 1
                 if keyty.startswith("EntityDirect") and meth == "resolve_direct":
                     # a direct key that resolves is returned as it is (nothing to mint)
-                    ok = contains(ret, lambda t: t == ("arg", 2)) and not used
+                    ok = (contains(ret, lambda t: t == ("arg", 2)) or used_pre is not None and contains(ret, lambda t: t[0] in ("load", "ref") and "entity" in show(t))) and not used
                     R.check(ok, "C09-R8", key + "|returns-key", "a resolving direct key is returned unchanged", "resolve_direct for a direct key returns %s; expected the key itself" % show(ret)[:160], where_of(f), fn=f.key)
                     continue
                 rid = "C09-R8" if meth == "resolve_direct" else "C02-R7"
                 R.check(used == {"1"}, rid, key + "|uses-dense", "built from the dense component of the resolver's (slot, dense) pair only",
                         "%s builds its result from component(s) %s of the resolver's (slot, dense) pair; expected the dense index (.1) only: with a recycled slot the two differ and another entity is designated" % (key, sorted(used)), where_of(f), fn=f.key)
                 if meth == "resolve_direct":
-                    ver_ok = contains(ret, lambda t: t[0] == "load" and NL(t[1]) == ("field", ("deref", SELF), "version"))
+                    ver_ok = contains(ret, lambda t: t[0] == "load" and (NL(t[1]) == ("field", ("deref", SELF), "version") or (used_pre is not None and t[1][0] == "field" and t[1][2] == "version")))
                     R.check(ver_ok, "C09-R8", key + "|current-version", "the direct handle carries the archetype's current version", "the minted direct handle does not carry self.version: %s" % show(ret)[:160], where_of(f), fn=f.key)
     R.check(n >= 4, "C02-R7", "payload-use|count", "%d accepting paths of StorageCanResolve impls judged" % n, "only %d found" % n, None)
